@@ -90,6 +90,10 @@ func cmdDrive(args []string) {
 			driveBurst(r, w, id, *maxAtoms, &cv)
 			continue
 		}
+		if *prof == "kernel" {
+			driveKernel(r, w, id, &cv)
+			continue
+		}
 		if *bits == 64 {
 			u, gens = randUniverse64(r, *maxAtoms)
 		} else if r.Intn(2) == 0 {
@@ -421,6 +425,65 @@ func driveBurst(r *rand.Rand, w *bufio.Writer, id int, maxAtoms int, cv *coverOu
 	e.run(Call{Op: "Ser", X: 1, V: r.Intn(4)})
 	e.run(Call{Op: "RunOptimize", X: 1})
 	e.run(Call{Op: "Card", X: 1})
+	cv.Traces++
+	cv.Events += e.events
+	for k, v := range e.cover {
+		cv.Ops[k] += v
+	}
+}
+
+// driveKernel: the container-kernel matrix. One chunk key (sometimes a second, adjacent one), operand A and B
+// drawn from the catalogue of boundary shapes, each realised as array / bitmap / run chunk by its recipe, then
+// every binary operation in every form and both operand orders on fresh copies.
+func driveKernel(r *rand.Rand, w *bufio.Writer, id int, cv *coverOut) {
+	var u *Universe
+	var ga, gb []int
+	for {
+		key := pick(r, []uint64{0, 1, 9, 0x7FFF, 0xFFFE, 0xFFFF})
+		a, b := edgeShape(r, key), edgeShape(r, key)
+		if r.Intn(3) == 0 && key < 0xFFFF {
+			a = a.union(edgeShape(r, key+1))
+		}
+		if r.Intn(3) == 0 && key > 0 {
+			b = b.union(edgeShape(r, key-1))
+		}
+		var err error
+		u, err = vennUniverse(32, []uint64{key << 16, (key + 1) << 16}, []iset{a, b})
+		if err != nil {
+			panic(err)
+		}
+		if len(u.Atoms) > 60 {
+			continue
+		}
+		ga, _ = u.project(a)
+		gb, _ = u.project(b)
+		break
+	}
+	u.computeShifts([]int64{0})
+	u.Name = "kernel"
+	e := newExec(u, w, id, r.Int63())
+	e.begin()
+	rc := []string{"R", "Ro", "M", "Mo", "Rc", "Rok", "Rz", "Rof"}
+	e.run(Call{Op: "Build", Dst: 1, As: ga, Rcp: pick(r, rc)})
+	e.run(Call{Op: "Build", Dst: 2, As: gb, Rcp: pick(r, rc)})
+	ops := []string{"And", "Or", "Xor", "AndNot"}
+	r.Shuffle(len(ops), func(i, j int) { ops[i], ops[j] = ops[j], ops[i] })
+	for _, op := range ops {
+		for _, ord := range [][2]int{{1, 2}, {2, 1}} {
+			e.run(Call{Op: "Clone", Dst: 3, X: ord[0]})
+			if r.Intn(3) == 0 {
+				e.run(Call{Op: "Detach", X: 3})
+			}
+			e.run(Call{Op: op, X: 3, Y: ord[1]})
+			e.run(Call{Op: op + "S", Dst: 4, X: ord[0], Y: ord[1]})
+		}
+	}
+	for _, q := range []string{"AndCard", "OrCard", "Intersects", "Equals"} {
+		e.run(Call{Op: q, X: 1, Y: 2})
+		e.run(Call{Op: q, X: 2, Y: 1})
+	}
+	e.run(Call{Op: "Or", X: 1, Y: 1})
+	e.run(Call{Op: "Xor", X: 2, Y: 2})
 	cv.Traces++
 	cv.Events += e.events
 	for k, v := range e.cover {
